@@ -316,3 +316,262 @@ def fd_collapse_program(rng):
         goals.append(fd_constraint(rng, vs, -3, 3))
     rng.shuffle(goals)
     return goals, nv
+
+
+# --------------------------------------------------------------------------- surface programs
+
+def pattern_pair(rng, pvars, anyc):
+    """Two pattern shapes over the same variables pvars (1 or 2 ids); anyc() gives a new wildcard."""
+    a = var(pvars[0])
+    b = var(pvars[1]) if len(pvars) > 1 else None
+    lit = lambda: rng.choice([["num", 1], ["num", 2], ["sym", "s:k"], ["sym", "b:true"], ["sym", "c:z"]])
+    if b is None:
+        shapes = [["list", [a]], ["list", [a, anyc()]], ["ilist", [anyc(), a]], ["list", [a, a]], ["cmp", "Box1", [a]],
+                  ["cmp", "Pair", [lit(), a]], ["ilist", [a, lit(), anyc()]], a, ["list", [lit(), a]],
+                  ["list", [["list", [a]], anyc()]]]
+    else:
+        shapes = [["list", [a, b]], ["ilist", [a, b]], ["list", [b, a]], ["list", [a, b, a]], ["cmp", "Pair", [a, b]],
+                  ["ilist", [a, lit(), b]], ["list", [["list", [a]], b]], ["cmp", "Pair", [["list", [a]], ["cmp", "Box1", [b]]]],
+                  ["list", [a, anyc(), b]]]
+    return rng.sample(shapes, 2)
+
+
+def match_program(rng, idx):
+    """A query built around one match / matche / matcha / matchu expression."""
+    nq = rng.randint(1, 2)
+    state = {"next": 10, "any": 900}
+
+    def fresh_id():
+        state["next"] += 1
+        return state["next"]
+
+    def anyc():
+        state["any"] += 1
+        return ["any", state["any"]]
+
+    op = rng.choice(["match", "match", "matche", "matcha", "matchu"])
+    names = {}
+    tg = TermGen(rng, [1] if nq == 1 else [1, 2], compounds=True, syms=True, nums=[1, 2, 3])
+    # the matched term: a query variable (possibly bound by the prefix) or a small term over them
+    r = rng.random()
+    prefix = []
+    if r < 0.5:
+        mterm = var(1)
+        if rng.random() < 0.7:
+            val = rng.choice([["list", [["num", 1], ["num", 2]]], ["list", [["num", 1]]], ["nil"], ["num", 1],
+                              ["cmp", "Pair", [["num", 1], ["num", 2]]], ["cmp", "Box1", [["num", 2]]],
+                              ["ilist", [["num", 1], ["num", 2], var(nq)]], ["list", [["num", 1], ["num", 2], ["num", 1]]],
+                              ["list", [["list", [["num", 2]]], ["num", 2]]]])
+            prefix = [["eq", var(1), val]] if rng.random() < 0.7 else [["conde", [[["eq", var(1), val]], [["eq", var(1), ["list", [["num", 2], ["num", 1]]]]]]]]
+    elif r < 0.8:
+        mterm = ["list", [var(1), var(nq)]]
+        prefix = [["eq", var(1), rng.choice([["num", 1], ["list", [["num", 1]]], ["sym", "s:k"]])]] if rng.random() < 0.5 else []
+    else:
+        mterm = ["cons", var(1), var(nq)]
+    arms = []
+    for _ in range(rng.randint(1, 3)):
+        k = rng.randint(0, 2)
+        pv = [fresh_id() for _ in range(k)]
+        if k == 0:
+            pats = [rng.choice([["nil"], ["num", 1], ["list", [["num", 1], anyc()]], ["ilist", [anyc(), anyc()]], anyc(),
+                                ["cmp", "Pair", [anyc(), ["num", 2]]], ["sym", "s:k"]])]
+            if rng.random() < 0.3:
+                pats.append(rng.choice([["nil"], ["list", [anyc()]], ["num", 2]]))
+        else:
+            two = pattern_pair(rng, pv, anyc)
+            pats = two if rng.random() < 0.4 else two[:1]
+        # shadowing: a pattern variable may carry the NAME of an outer query variable
+        shadowed = set()
+        for p in pv:
+            if rng.random() < 0.35:
+                o = rng.randint(1, nq)
+                if o in shadowed:
+                    continue          # two variables of one arm must keep different names
+                names[str(p)] = "v%d" % o
+                shadowed.add(o)
+        usable = [q for q in range(1, nq + 1) if q not in shadowed] + pv
+        body = []
+        for _ in range(rng.randint(0, 2)):
+            if not usable:
+                break
+            a = var(rng.choice(usable))
+            b = rng.choice([["num", rng.randint(1, 3)], var(rng.choice(usable)), ["list", [var(rng.choice(usable))]]])
+            body.append([rng.choice(["eq", "eq", "neq"]), a, b])
+        arms.append({"pats": pats, "vars": pv, "body": body})
+    body = prefix + [["match", op, mterm, arms]]
+    if rng.random() < 0.3:
+        body.append(["neq", var(nq), ["num", 2]])
+    return {"id": "m%d" % idx, "backend": "surface", "kind": "program", "mode": "query", "qvars": list(range(1, nq + 1)),
+            "body": body, "names": names, "after": 1, "budget": 200000}
+
+
+REL_TEMPLATES = {
+    # dup(l, out): every element twice
+    "dup": {"params": [1, 2], "locals": [3, 4, 5],
+            "body": [["match", "match", ["var", 1], [
+                {"pats": [["nil"]], "vars": [], "body": [["eq", ["var", 2], ["nil"]]]},
+                {"pats": [["cons", ["var", 3], ["var", 4]]], "vars": [3, 4],
+                 "body": [["fresh", [5], [["eq", ["var", 2], ["ilist", [["var", 3], ["var", 3], ["var", 5]]]],
+                                          ["call", "dup", [["var", 4], ["var", 5]]]]]]}]]]},
+    # pairs(l, out): out is the list of [x, fresh] pairs - one fresh variable per element
+    "pairs": {"params": [1, 2], "locals": [3, 4, 5, 6],
+              "body": [["conde", [[["eq", ["var", 1], ["nil"]], ["eq", ["var", 2], ["nil"]]],
+                                  [["fresh", [3, 4, 5, 6], [["eq", ["var", 1], ["cons", ["var", 3], ["var", 4]]],
+                                                            ["eq", ["var", 2], ["cons", ["list", [["var", 3], ["var", 5]]], ["var", 6]]],
+                                                            ["call", "pairs", [["var", 4], ["var", 6]]]]]]]]]},
+    # lastof(l, x): x is the last element
+    "lastof": {"params": [1, 2], "locals": [3, 4, 5, 901],
+               "body": [["match", "match", ["var", 1], [
+                   {"pats": [["list", [["var", 3]]]], "vars": [3], "body": [["eq", ["var", 3], ["var", 2]]]},
+                   {"pats": [["cons", ["any", 901], ["var", 4]]], "vars": [4],
+                    "body": [["fresh", [5], [["eq", ["var", 5], ["var", 4]], ["call", "lastof", [["var", 5], ["var", 2]]]]]]}]]]},
+}
+
+
+def rel_program(rng, idx, shadow):
+    """A query calling a recursive relation whose body introduces fresh variables; when `shadow`
+    the relation's local names coincide with the caller's names (the twin has unique names)."""
+    rel = rng.choice(sorted(REL_TEMPLATES))
+    d = REL_TEMPLATES[rel]
+    lst = ["list", [rng.choice([["num", 1], ["num", 2], ["sym", "s:k"], var(2)]) for _ in range(rng.randint(0, 3))]]
+    nq = 2
+    body = []
+    if rel == "lastof" and not lst[1]:
+        lst = ["list", [["num", 1]]]
+    mode = rng.random()
+    if mode < 0.6:
+        body.append(["call", rel, [lst, var(1)]])
+    else:
+        body.append(["fresh", [7], [["eq", var(7), lst], ["call", rel, [var(7), var(1)]]]])
+    if rng.random() < 0.4:
+        body.append(["fresh", [8], [["eq", var(8), var(2)], ["neq", var(8), ["num", 2]]]])
+    names = {}
+    if shadow:
+        # locals of the relation named like the caller's variables; caller's fresh variables
+        # named like the query variables of sibling scopes
+        # the relation's locals carry the names of the CALLER's variables (v1, v2, v7, v8); its
+        # parameters get names of their own; a sibling fresh block of the caller re-uses v7
+        pool = ["v1", "v2", "v7", "v8"]
+        for i, l in enumerate(x for x in d["locals"] if x < 900):
+            names[str(l)] = pool[i % len(pool)]
+        names[str(d["params"][0])] = "v21"
+        names[str(d["params"][1])] = "v22"
+        names["8"] = "v7"
+    return {"id": "r%d" % idx, "backend": "surface", "kind": "program", "mode": "query", "qvars": [1, 2],
+            "defs": {rel: d}, "body": body, "names": names, "after": 1, "budget": 400000}
+
+
+def shadow_program(rng, idx, shadow):
+    """Nested fresh blocks with same-named variables in nested and sibling scopes."""
+    names = {}
+    state = {"next": 10}
+
+    def block(outer, level):
+        goals = []
+        n = rng.randint(1, 2)
+        ids = []
+        for _ in range(n):
+            state["next"] += 1
+            ids.append(state["next"])
+        visible = list(outer)
+        used = set()
+        for i in ids:
+            if shadow and outer and rng.random() < 0.6:
+                o = rng.choice(outer)
+                nm = names.get(str(o), "v%d" % o)
+                if nm in used:
+                    continue      # two variables of one fresh block must keep different names
+                used.add(nm)
+                names[str(i)] = nm
+                visible = [x for x in visible if names.get(str(x), "v%d" % x) != nm]
+        visible += ids
+        for _ in range(rng.randint(1, 3)):
+            a = var(rng.choice(visible))
+            b = rng.choice([["num", rng.randint(1, 3)], var(rng.choice(visible)), ["list", [var(rng.choice(visible)), ["num", 1]]]])
+            goals.append([rng.choice(["eq", "eq", "neq"]), a, b])
+        if level < 2 and rng.random() < 0.7:
+            goals.insert(rng.randint(0, len(goals)), block(visible, level + 1))
+        if level < 2 and rng.random() < 0.4:
+            goals.append(block(visible, level + 1))
+        return ["fresh", ids, goals]
+
+    body = [block([1, 2], 0)]
+    if rng.random() < 0.5:
+        body.append(block([1, 2], 0))
+    return {"id": "s%d" % idx, "backend": "surface", "kind": "program", "mode": "query", "qvars": [1, 2],
+            "body": body, "names": names, "after": 1, "budget": 200000}
+
+
+def grammar_program(rng, idx):
+    """Programs over the whole clause grammar (C14)."""
+    nq = rng.randint(1, 3)
+    state = {"next": 10, "any": 900, "defs": {}}
+
+    def anyc():
+        state["any"] += 1
+        return ["any", state["any"]]
+
+    def t(vars_, depth, top):
+        r = rng.random()
+        if depth <= 0 or r < 0.4:
+            r2 = rng.random()
+            if r2 < 0.4:
+                return var(rng.choice(vars_))
+            if r2 < 0.6:
+                return ["num", rng.randint(0, 3)]
+            if r2 < 0.8:
+                return ["sym", rng.choice(["b:true", "b:false", "c:a", "s:a", "s:1"])]
+            if r2 < 0.9:
+                return anyc()
+            return ["nil"]
+        if r < 0.65 or (r >= 0.85 and not top):
+            return ["list", [t(vars_, depth - 1, False) for _ in range(rng.randint(0, 3))]]
+        if r < 0.85:
+            return ["ilist", [t(vars_, depth - 1, False) for _ in range(rng.randint(1, 2))] + [rng.choice([var(rng.choice(vars_)), anyc(), ["num", 1]])]]
+        # the surface grammar accepts compound constructors only outside list brackets
+        ty = rng.choice(["Pair", "Box1"])
+        return ["cmp", ty, [t(vars_, depth - 1, rng.random() < 0.4) for _ in range(CMP_ARITY[ty])]]
+
+    def term_(vars_, depth):
+        return t(vars_, depth, True)
+
+    def goal_(vars_, level):
+        r = rng.random()
+        if r < 0.3:
+            return ["eq", term_(vars_, 2), term_(vars_, 2)]
+        if r < 0.42:
+            return ["neq", var(rng.choice(vars_)), term_(vars_, 1)]
+        if r < 0.47:
+            return rng.choice([["succeed"], ["fail"]])
+        if r < 0.57 and level < 2:
+            return ["conj", [goal_(vars_, level + 1) for _ in range(rng.randint(1, 3))]]
+        if r < 0.72 and level < 2:
+            return ["conde", [[goal_(vars_, level + 1) for _ in range(rng.randint(1, 2))] for _ in range(rng.randint(2, 3))]]
+        if r < 0.82 and level < 2:
+            state["next"] += 1
+            i = state["next"]
+            return ["fresh", [i], [goal_(vars_ + [i], level + 1) for _ in range(rng.randint(1, 2))]]
+        if r < 0.88 and level < 2:
+            # `closure { }` is a `move` closure: it takes ownership of the variables it mentions, so
+            # they cannot be used afterwards in the same scope.  It gets a variable of its own.
+            state["next"] += 1
+            c = state["next"]
+            inner = [rng.choice([["eq", var(c), ["num", rng.randint(0, 3)]], ["neq", var(c), ["num", 1]],
+                                 ["call", "member", [var(c), ["list", [["num", 1], ["num", 2]]]]],
+                                 ["conde", [[["eq", var(c), ["num", 1]]], [["eq", var(c), ["list", [["num", 2]]]]]]]])
+                     for _ in range(rng.randint(1, 2))]
+            return ["fresh", [c], [["eq", var(c), term_(vars_, 1)], ["closure", inner]]]
+        if r < 0.96:
+            lg = lib_goal(rng, TermGen(rng, vars_, compounds=False, syms=False, nums=[1, 2, 3]))
+            return lg
+        return ["eq", var(rng.choice(vars_)), ["num", 1]]
+
+    qs = list(range(1, nq + 1))
+    body = [goal_(qs, 0) for _ in range(rng.randint(1, 4))]
+    case = {"id": "g%d" % idx, "kind": "program", "mode": "query", "qvars": qs, "body": body, "after": 1, "budget": 400000}
+    if rng.random() < 0.15:
+        k = rng.randint(1, 2)
+        case["body"] = body + [["loop", [[["conde", [[["eq", var(1), ["num", j]]] for j in range(k)]]]]]]
+        case["take"] = rng.randint(2, 6)
+        case["fuel"] = 10
+    return case
